@@ -165,6 +165,10 @@ Definition str_enum_names (s : schema) : option (list ustring) :=
 Definition is_ap_false (ap : option schema) : bool :=
   match ap with Some (SBool false) => true | _ => false end.
 
+(* internally tagged variants: the tag member is not a member of the struct *)
+Definition is_skip (skip : option ustring) (k : ustring) : bool :=
+  match skip with Some tg => ustr_eqb k tg | None => false end.
+
 (* the enum value [e] is a string naming a unit variant *)
 Definition str_simple (vs : list variant) (e : json) : bool :=
   match e with
@@ -240,70 +244,6 @@ Section Covers.
       | VTuple _ => false
       end.
 
-    (* the payload schema [sc] of a tagged variant against the variant's data *)
-    Definition payload_ok (sc : schema) (deny : bool) (v : variant) : bool :=
-      match v_det v with
-      | VItem t' => cov sc false (TId t')
-      | VStruct ps => cov sc false (TProps ps deny)
-      | _ => false
-      end.
-
-    (* a branch of oneOf/anyOf against an externally tagged enum: a string enum
-       of unit variants, or {"K": payload} for the variant named K *)
-    Definition external_branch_ok (vs : list variant) (deny nn : bool) (b : schema) : bool :=
-      match b with
-      | SBool _ => false
-      | SObj ty _ enum _ _ _ _ _ _ _ _ _ props req ap _ _ allo anyo oneo no ref _ _ =>
-          match ref, anyo, oneo, allo, no with
-          | None, None, None, None, None =>
-              (ty_is nn ty [TString]
-               && match enum with Some es => forallb (str_simple vs) es | None => false end)
-              || (ty_is nn ty [TObject] && is_ap_false ap
-                  && match props with
-                     | [kv] =>
-                         mem_ustr (fst kv) req
-                         && match find_variant (fst kv) vs 0 with
-                            | Some (_, vr) => payload_ok (snd kv) deny vr
-                            | None => false
-                            end
-                     | _ => false
-                     end)
-          | _, _, _, _, _ => false
-          end
-      end.
-
-    (* ... against an adjacently tagged enum: {"tag": K, "content": payload} *)
-    Definition adjacent_branch_ok (tg ct : ustring) (vs : list variant) (deny nn : bool) (b : schema) : bool :=
-      match b with
-      | SBool _ => false
-      | SObj ty _ _ _ _ _ _ _ _ _ _ _ props req ap _ _ allo anyo oneo no ref _ _ =>
-          match ref, anyo, oneo, allo, no with
-          | None, None, None, None, None =>
-              ty_is nn ty [TObject] && negb (ustr_eqb tg ct) && mem_ustr tg req
-              && match assoc tg props with
-                 | Some stag =>
-                     match str_enum_names stag with
-                     | Some names =>
-                         forallb (fun x =>
-                           match find_variant x vs 0 with
-                           | Some (_, vr) =>
-                               (* every declared member is the tag or the (covered) content *)
-                               forallb (fun kv => ustr_eqb (fst kv) tg
-                                                  || (ustr_eqb (fst kv) ct && payload_ok (snd kv) deny vr)) props
-                               && (if has_key ct props
-                                   then mem_ustr ct req && (negb deny || is_ap_false ap)
-                                   else match v_det vr with VSimple => true | _ => false end
-                                        && is_ap_false ap)
-                           | None => false
-                           end) names
-                     | None => false
-                     end
-                 | None => false
-                 end
-          | _, _, _, _, _ => false
-          end
-      end.
-
     Section Obj.
       Variable ty : option (list itype).
       Variable fmt : option ustring.
@@ -338,17 +278,21 @@ Section Covers.
 
       (* every declared property is a struct member whose type covers it and
          which may be absent only if the type side has a rule for absence *)
-      Definition props_ok (ps : list prop) : bool :=
-        forallb (fun kv => match find_prop_by_wire (fst kv) ps with
-                           | Some p => cov (snd kv) false (TId (p_ty p))
-                                       && (mem_ustr (fst kv) req || missing_ok p)
-                           | None => false
-                           end) props.
+      Definition props_ok (skip : option ustring) (ps : list prop) : bool :=
+        forallb (fun kv => is_skip skip (fst kv)
+                           || match find_prop_by_wire (fst kv) ps with
+                              | Some p => cov (snd kv) false (TId (p_ty p))
+                                          && (mem_ustr (fst kv) req || missing_ok p)
+                              | None => false
+                              end) props.
 
-      Definition struct_case (nn : bool) (ps : list prop) (deny : bool) : bool :=
+      (* [skip = Some tg]: the declared member [tg] is the tag of an internally
+         tagged enum, removed from the object before the struct body sees it *)
+      Definition struct_case (skip : option ustring) (nn : bool) (ps : list prop) (deny : bool) : bool :=
         ty_is nn ty [TObject]
         && nodup_ustr (wire_names ps)             (* wire names are distinct *)
-        && props_ok ps
+        && match skip with Some tg => negb (mem_ustr tg (wire_names ps)) | None => true end
+        && props_ok skip ps
         (* every non-flattened struct member is declared by the schema *)
         && forallb (fun p => match wire_name p with
                              | None => true
@@ -414,9 +358,124 @@ Section Covers.
             && match get_det T k with Some DString => true | _ => false end
             && match props with [] => true | _ => false end
             && addl_ok vt
-        | DStruct _ _ ps deny => struct_case nn ps deny
+        | DStruct _ _ ps deny => struct_case None nn ps deny
         | _ => false
         end.
+
+    End Obj.
+
+    (* the payload schema [sc] of a tagged variant against the variant's data *)
+    Definition payload_ok (sc : schema) (deny : bool) (v : variant) : bool :=
+      match v_det v with
+      | VItem t' => cov sc false (TId t')
+      | VStruct ps => cov sc false (TProps ps deny)
+      | _ => false
+      end.
+
+    (* a branch of oneOf/anyOf against an externally tagged enum: a string enum
+       of unit variants, or {"K": payload} for the variant named K *)
+    Definition external_branch_ok (vs : list variant) (deny nn : bool) (b : schema) : bool :=
+      match b with
+      | SBool _ => false
+      | SObj ty _ enum _ _ _ _ _ _ _ _ _ props req ap _ _ allo anyo oneo no ref _ _ =>
+          match ref, anyo, oneo, allo, no with
+          | None, None, None, None, None =>
+              (ty_is nn ty [TString]
+               && match enum with Some es => forallb (str_simple vs) es | None => false end)
+              || (ty_is nn ty [TObject] && is_ap_false ap
+                  && match props with
+                     | [kv] =>
+                         mem_ustr (fst kv) req
+                         && match find_variant (fst kv) vs 0 with
+                            | Some (_, vr) => payload_ok (snd kv) deny vr
+                            | None => false
+                            end
+                     | _ => false
+                     end)
+          | _, _, _, _, _ => false
+          end
+      end.
+
+    (* ... against an adjacently tagged enum: {"tag": K, "content": payload} *)
+    Definition adjacent_branch_ok (tg ct : ustring) (vs : list variant) (deny nn : bool) (b : schema) : bool :=
+      match b with
+      | SBool _ => false
+      | SObj ty _ _ _ _ _ _ _ _ _ _ _ props req ap _ _ allo anyo oneo no ref _ _ =>
+          match ref, anyo, oneo, allo, no with
+          | None, None, None, None, None =>
+              ty_is nn ty [TObject] && negb (ustr_eqb tg ct) && mem_ustr tg req
+              && match assoc tg props with
+                 | Some stag =>
+                     match str_enum_names stag with
+                     | Some names =>
+                         forallb (fun x =>
+                           match find_variant x vs 0 with
+                           | Some (_, vr) =>
+                               (* every declared member is the tag or the (covered) content *)
+                               forallb (fun kv => ustr_eqb (fst kv) tg
+                                                  || (ustr_eqb (fst kv) ct && payload_ok (snd kv) deny vr)) props
+                               && (if has_key ct props
+                                   then mem_ustr ct req && (negb deny || is_ap_false ap)
+                                   else match v_det vr with VSimple => true | _ => false end
+                                        && is_ap_false ap)
+                           | None => false
+                           end) names
+                     | None => false
+                     end
+                 | None => false
+                 end
+          | _, _, _, _, _ => false
+          end
+      end.
+
+    (* ... against an internally tagged enum: the variant's members plus {"tag": K} *)
+    Definition internal_branch_ok (tg : ustring) (vs : list variant) (deny nn : bool) (b : schema) : bool :=
+      match b with
+      | SBool _ => false
+      | SObj ty _ _ _ _ _ _ _ _ _ _ _ props req ap _ _ allo anyo oneo no ref _ _ =>
+          match ref, anyo, oneo, allo, no with
+          | None, None, None, None, None =>
+              ty_is nn ty [TObject] && mem_ustr tg req
+              && match assoc tg props with
+                 | Some stag =>
+                     match str_enum_names stag with
+                     | Some names =>
+                         forallb (fun x =>
+                           match find_variant x vs 0 with
+                           | Some (_, vr) =>
+                               match v_det vr with
+                               | VStruct ps => struct_case ty props req ap (Some tg) nn ps deny
+                               | VSimple =>
+                                   (negb deny
+                                    || (is_ap_false ap && forallb (fun kv => ustr_eqb (fst kv) tg) props))
+                               | _ => false
+                               end
+                           | None => false
+                           end) names
+                     | None => false
+                     end
+                 | None => false
+                 end
+          | _, _, _, _, _ => false
+          end
+      end.
+
+    Section Obj2.
+      Variable ty : option (list itype).
+      Variable fmt : option ustring.
+      Variable enum : option (list json).
+      Variable cst : option json.
+      Variable nv : numv.
+      Variable sv : strv.
+      Variable ik : items_kind.
+      Variable items : list schema.
+      Variable mni mxi : option N.
+      Variable props : list (ustring * schema).
+      Variable req : list ustring.
+      Variable ap : option schema.
+      Variable allo anyo oneo : option (list schema).
+      Variable no : option schema.
+      Variable ref : option ustring.
 
       (* pure union (no other assertion keyword beside anyOf/oneOf = [bs]) *)
       Definition union_ok (nn : bool) (d : details) (bs : list schema) : bool :=
@@ -429,6 +488,7 @@ Section Covers.
                 forallb (fun b => existsb (variant_ok b nn deny) vs) bs
             | DEnum _ _ TagExternal vs deny _ => forallb (external_branch_ok vs deny nn) bs
             | DEnum _ _ (TagAdjacent tg ct) vs deny _ => forallb (adjacent_branch_ok tg ct vs deny nn) bs
+            | DEnum _ _ (TagInternal tg) vs deny _ => forallb (internal_branch_ok tg vs deny nn) bs
             | _ => false
             end
         | _, _, _, _, _ => false
@@ -467,7 +527,7 @@ Section Covers.
                         | None =>
                             match cenum_of d with
                             | Some (t', vs) => enum_ok enum vs && go ft' nn t'
-                            | None => leaf_ok nn d
+                            | None => leaf_ok ty fmt enum nv sv ik items mni mxi props req ap nn d
                             end
                         end
                     | _, _ => false
@@ -482,12 +542,12 @@ Section Covers.
         match tg with
         | TProps ps deny =>
             match ref, anyo, oneo, allo, no with
-            | None, None, None, None, None => struct_case nn0 ps deny
+            | None, None, None, None, None => struct_case ty props req ap None nn0 ps deny
             | _, _, _, _, _ => false
             end
         | TId t0 => go FT nn0 t0
         end.
-    End Obj.
+    End Obj2.
   End Node.
 
   Fixpoint covers (s : schema) {struct s} : bool -> target -> bool :=
